@@ -55,7 +55,7 @@ def oracle_reps(tlines, expect_creep):
 
 
 def run(res, a):
-    proofs_ok = vlib.proof_stage(res, "C11")
+    proofs_ok = vlib.proof_stage(res, "C11", files=["C11", "C11back"])
     thorough = (a.tier == "thorough")
     ok, txt, cmd, exe = oslib.build_harness("t_osfree", a.pid)
     if not ok:
@@ -113,20 +113,27 @@ def run(res, a):
         res.violation("corr:" + mism[0].split()[2], "model/implementation disagreement (%d records), e.g. %s" % (len(mism), mism[0][:1500]), witness=None)
     elif mism:
         log("[corr] %d model/implementation disagreements, e.g. %s" % (len(mism), mism[0][:600]))
-    res.cov["evaluations"] = len(F) + len(T)
-    res.cov["distinct_nontrivial"] = len(set(F)) + len(set(T))
+    # (5) the whole-workload clause on the commit model (Properties/C11back.v): harness/f_commit.c runs drained at the end,
+    #     the real allocator and the model state in lockstep must both have given everything back
+    import commitmodel
+    base_eval, base_dist = res.cov.get("evaluations", 0), res.cov.get("distinct_nontrivial", 0)
+    gstats = commitmodel.run(res, a.seed, a.tier, prop="C11")
+    g_eval, g_dist = res.cov.get("evaluations", 0) - base_eval, res.cov.get("distinct_nontrivial", 0) - base_dist
+    res.cov["evaluations"] = len(F) + len(T) + g_eval
+    res.cov["distinct_nontrivial"] = len(set(F)) + len(set(T)) + g_dist
     res.cov["rule"] = ("F os_roundtrip records: the real _mi_os_alloc/_mi_os_alloc_aligned/_mi_os_alloc_aligned_at_offset followed by _mi_os_free_ex under the "
                        "OS shim; the kernel's answers are fed to the extracted Coq model as its oracle and pointer, memid, the sequence of system calls and "
                        "the number of mappings left must be equal. T roundtrip: shim ledger digest before/after equal, alignment, range inside the mapping, "
                        "accessible. T rep: whole-API workload (small..huge, aligned-huge, two threads that exit) repeated; no growth of mapped/committed "
                        "bytes from repetition k to k+1, nothing mapped outside the arenas but the segment-map part, arenas purged, TD cache empty. "
-                       "distinct = distinct record lines")
-    res.cov["traces_validated_against_impl"] = nrec
-    res.cov["disagreements_checked"] = len(mism)
+                       "distinct = distinct record lines.  Give-back layer (commit model, Properties/C11back.v): see giveback_layer_rule; its evaluations are the API "
+                       "calls replayed in lockstep, non-trivial = OS calls refused by the shim")
+    res.cov["traces_validated_against_impl"] = res.cov.get("traces_validated_against_impl", 0) + nrec
+    res.cov["disagreements_checked"] = res.cov.get("disagreements_checked", 0) + len(mism)
     res.cov["input_distribution"] = {"roundtrips": {"%s/%s/%s" % (["os_alloc", "os_alloc_aligned", "os_alloc_aligned_at_offset"][k[0]], k[1], k[2]): v for k, v in rc_count.items()},
                                      "repetitions": rep_summary,
                                      "configs": "0: arenas enabled (1GiB reserve), 1: mi_option_disallow_arena_alloc, 2: arena_reserve=32MiB, 3: arena_eager_commit=0, 4: arena_eager_commit=0 + eager_commit=0; x %d repetitions" % reps_n}
-    res.cov["models_used"] = ["Model/Os.v", "Model/Purge.v"]
+    res.cov["models_used"] = ["Model/Os.v", "Model/Purge.v", "Model/Commit.v", "Model/GiveBack.v"]
     res.add_samples([F[0][:500], F[len(F) // 2][:500]] + [l for l in T if l.startswith("T rep")][:3])
     res.assumptions += ["resident-set size is kernel behaviour: the ledger of harness/shim.c follows mmap/munmap/mprotect/madvise (committed = read-write and not "
                         "purged since the last write-commit)", "allocations above 64MiB are checked separately (known finding huge-alloc-reserves-arena)"]
